@@ -224,6 +224,30 @@ def c16(run):
                 run.fail(case, 'callbacks invoked up to the failing one are not exactly the first i+1 nodes')
 
 
+    # a visitor that overrides the LEAF callbacks only (every dispatching method is the library's default body, which the full
+    # recorder re-implements and so cannot observe): the leaves, in order, are those of the independent enumeration
+    lq, lmeta = [], []
+    for prog, src, evs in progs_:
+        leaves = [e for e in evs if is_leaf(e)]
+        fs = ['-'] + ([str(rng.randrange(len(leaves)))] if leaves else [])
+        for f in fs:
+            lq.append('walkleaf %s %s' % (hx(src), f))
+            lmeta.append((src, leaves, f))
+    lans = common.impl(lq)
+    for (src, leaves, f), r in zip(lmeta, lans):
+        if r == 'skipped':
+            continue
+        run.case(('leaf', src, f), True, kind='leaves-only-visitor')
+        case = {'program': src, 'fail': f, 'answer': r[:600], 'expected_leaves': ','.join(leaves)[:600]}
+        if f == '-':
+            got = [x for x in r[3:].strip().split(',') if x] if r.startswith('ok') else None
+            if got != leaves:
+                run.fail(case, 'a visitor overriding only leaf callbacks is not presented every leaf exactly once in field order')
+        else:
+            k = int(f)
+            got = [x for x in r.split(' ', 2)[2].split(',') if x] if r.startswith('err %s ' % f) or r == 'err %s' % f else None
+            if got != leaves[:k + 1]:
+                run.fail(case, 'the first error returned by a leaf callback is not returned unchanged / leaves before it differ')
     # (a) deeply nested blocks (8 ... 600 levels: nothing may be skipped however deep), (b) ONE runner reused: K walks that fail
     # at callback W, then the reported walk -- a runner carries no state from walk to walk, so the answer is that of a fresh
     # `walk` (the model's, and the implementation's own `walk` answer)
@@ -871,6 +895,17 @@ def c20(run):
             src = texts.mutate(rng, progs.render(rng, io_program(rng)))
         stdin = rng.choice(['', 'one\ntwo\nthree\n', 'no newline', 'é\n\nΩ\n'])
         cases.append((src, stdin))
+    # characters that an editor, a shell or a "helpful" front end might normalise on the way from the FILE to the library:
+    # typographic quotes and dashes, no-break and zero-width spaces, byte order mark, CR / CRLF / NEL line ends, tabs, NUL,
+    # full-width forms, combining marks -- inside a string, a poetic string, a poetic number, a name, between tokens
+    for ch in ['\u2018', '\u2019', '\u201c', '\u201d', '\u2013', '\u2014', '\u2026', '\u00a0', '\u200b', '\ufeff', '\r', '\r\n', '\u0085', '\u2028',
+               '\t', '\x00', '\uff07', '\uff11', 'e\u0301', '\u00e9', '\u00ad', '\x0c', '\x1a', '`', '\u00b4']:
+        cases.append(('say "a%sb"\nsay "end"\n' % ch, ''))
+        cases.append(('x says it%ss only rock %sn%s roll\nsay x\n' % (ch, ch, ch), ''))
+        cases.append(('Joey was a dancer%ss dream\nsay Joey\n' % ch, ''))
+        cases.append(('put 1 into x%sput 2 into y\nsay x%ssay y\n' % (ch, ch), ''))
+        cases.append(('%ssay 1\nsay 2%s' % (ch, ch), ''))
+        cases.append(('if 1 ain%st 2\nsay "ne"\n\nsay 3\n' % ch, ''))
     # output whose size and shape meets the buffering of a real standard output: one `say` of a multi-line string whose
     # last line has N bytes, a single line of N bytes, N short lines, an echoed input line of N bytes
     for nn in ([100, 1023, 1024, 1025, 8192, 70000] if run.tier == 'quick' else [100, 511, 512, 1023, 1024, 1025, 2048, 4095, 4096, 8191, 8192, 8193, 65536, 70000, 300000]):
